@@ -547,6 +547,115 @@ def predicate_sequences():
     return None
 
 
+# ------------------------------------------------- the configured limits: defaults and non-default settings --
+GIB = 1024 ** 3
+SPEC_DEFAULTS = {"max_entries": 50000, "total": 4 * GIB, "single": 1 * GIB, "total_ratio": 200, "entry_ratio": 500}
+FIELD_OF = {"max_entries": "max_entries", "total": "max_total_uncompressed_bytes", "single": "max_single_uncompressed_bytes",
+            "total_ratio": "max_total_compression_ratio", "entry_ratio": "max_entry_compression_ratio"}
+
+
+def native_defaults():
+    """The default configuration (property: 50000 entries, 4 GiB total, 1 GiB single, total ratio 200, entry ratio 500):
+    field values of ZipBombLimits() / DEFAULT_ZIP_BOMB_LIMITS, the default of every `limits` parameter, and the decision of
+    validate_zipfile called WITHOUT limits on entry vectors at -1/0/+1 of every default threshold."""
+    import inspect
+    from sharepoint2text.parsing.extractors.util import zip_bomb
+    from sharepoint2text.parsing.exceptions import ExtractionZipBombError
+    L = SPEC_DEFAULTS
+    vectors = []
+    for d in (-1, 0, 1):
+        vectors.append((f"total uncompressed = 4 GiB{d:+d}", [(GIB, GIB // 100, False)] * 3 + [(GIB + d, GIB // 100, False)]))
+        vectors.append((f"single entry = 1 GiB{d:+d}", [(GIB + d, GIB // 100, False)]))
+        vectors.append((f"entry ratio = 500 (uncompressed 500*1000{d:+d}, compressed 1000)", [(500 * 1000 + d, 1000, False), (10, 1000000, False)]))
+        vectors.append((f"total ratio = 200 (two entries 200*1000{d:+d} / 1000)", [(200 * 1000 + d, 1000, False), (200 * 1000, 1000, False)]))
+        vectors.append((f"entry count = 50000{d:+d}", [(1, 1, False)] * (50000 + d)))
+        vectors.append((f"entry count = 50000{d:+d} with directory records", [(1, 1, False)] * (49990 + d) + [(0, 0, True)] * 10))
+    for label, ent in vectors:
+        want = "rejected" if spec_reject_py(ent, L) else "accepted"
+        try:
+            zip_bomb.validate_zipfile(FakeZip(ent))
+            got = "accepted"
+        except ExtractionZipBombError:
+            got = "rejected"
+        except Exception as e:  # noqa
+            got = f"other:{type(e).__name__}"
+        if got != want:
+            shown = ent if len(ent) <= 6 else f"{len(ent)} records, first {ent[0]}, last {ent[-1]}"
+            return {"target": "zip_bomb.py::validate_zipfile (limits not passed: the default configuration)",
+                    "inputs": {"case": label, "entries": shown, "limits": "default"}, "expected": want, "observed": got}
+    for name, obj in (("ZipBombLimits()", getattr(zip_bomb, "ZipBombLimits", lambda: None)()), ("DEFAULT_ZIP_BOMB_LIMITS", getattr(zip_bomb, "DEFAULT_ZIP_BOMB_LIMITS", None))):
+        for k, fld in FIELD_OF.items():
+            v = getattr(obj, fld, None)
+            if v != L[k]:
+                return {"target": f"zip_bomb.py::{name}", "inputs": {"field": fld}, "expected": L[k], "observed": v}
+    for fn in ("validate_zipfile", "open_zipfile", "validate_zip_bytesio"):
+        f = getattr(zip_bomb, fn, None)
+        if f is None:
+            continue
+        p_ = inspect.signature(f).parameters.get("limits")
+        dv = p_.default if p_ is not None else None
+        for k, fld in FIELD_OF.items():
+            if getattr(dv, fld, None) != L[k]:
+                break
+        else:
+            continue
+        if dv is None:
+            continue          # resolved inside the function: the vectors above / the wrapper lattice decide
+        return {"target": f"zip_bomb.py::{fn}", "inputs": {"parameter": "limits"}, "expected": "default = the default configuration",
+                "observed": repr(dv)[:200]}
+    return None
+
+
+def native_limits_lattice():
+    """open_zipfile / validate_zip_bytesio with NON-default limits on real ZIPs that lie between the configured and the
+    default thresholds: each limit set to the container's own value (accept) and just below it (reject); expected outcome from
+    the executable spec on the container's real central directory."""
+    import zipfile
+    from sharepoint2text.parsing.extractors.util import zip_bomb
+    from sharepoint2text.parsing.exceptions import ExtractionZipBombError
+    data = _zip_bytes([("a.txt", b"abcdefghij" * 40), ("b/", b""), ("b/c.xml", b"<x>" + b"y" * 3000 + b"</x>"), ("d.bin", bytes(range(256)) * 4)])
+    with zipfile.ZipFile(io.BytesIO(data)) as z:
+        ent = [(i.file_size, i.compress_size, i.is_dir()) for i in z.infolist()]
+    files = [e for e in ent if not e[2]]
+    tu, tc = sum(e[0] for e in files), sum(e[1] for e in files)
+    big = max(e[0] for e in files)
+    from fractions import Fraction
+    er = max(Fraction(e[0], e[1]) for e in files)
+    tr = Fraction(tu, tc)
+    base = {"max_entries": 1000, "total": 10 ** 9, "single": 10 ** 9, "total_ratio": 10 ** 6, "entry_ratio": 10 ** 6}
+    settings = []
+    for k, exact, below in (("max_entries", len(ent), len(ent) - 1), ("total", tu, tu - 1), ("single", big, big - 1),
+                            ("entry_ratio", float(er) + 0.5, float(er) - 0.5), ("total_ratio", float(tr) + 0.5, float(tr) - 0.5)):
+        settings.append(dict(base, **{k: exact}))
+        settings.append(dict(base, **{k: below}))
+    # a laxer-than-default setting must be honoured too: ratio ~1000 accepted when the ratio limits are raised
+    lax_data = _zip_bytes([("pad.txt", b" " * 2_000_000)])
+    with zipfile.ZipFile(io.BytesIO(lax_data)) as z:
+        lax_ent = [(i.file_size, i.compress_size, i.is_dir()) for i in z.infolist()]
+    cases = [(data, ent, L) for L in settings] + [(lax_data, lax_ent, dict(base, total_ratio=5000, entry_ratio=5000))]
+    for payload, entries, L in cases:
+        want = "rejected" if spec_reject_py(entries, L) else "accepted"
+        lim = zip_bomb.ZipBombLimits(max_entries=L["max_entries"], max_total_uncompressed_bytes=L["total"], max_single_uncompressed_bytes=L["single"],
+                                     max_total_compression_ratio=float(L["total_ratio"]), max_entry_compression_ratio=float(L["entry_ratio"]))
+        for name in ("open_zipfile", "validate_zip_bytesio"):
+            fn = getattr(zip_bomb, name, None)
+            if fn is None:
+                continue
+            try:
+                r = fn(io.BytesIO(payload), limits=lim, source="replay")
+                if r is not None and hasattr(r, "close"):
+                    r.close()
+                got = "accepted"
+            except ExtractionZipBombError:
+                got = "rejected"
+            except Exception as e:  # noqa
+                got = f"other:{type(e).__name__}"
+            if got != want:
+                return {"target": f"zip_bomb.py::{name}", "inputs": {"entries (file_size, compress_size, is_dir)": entries, "limits": L},
+                        "expected": want, "observed": got}
+    return None
+
+
 def _dirflag():
     """Directory flag: must agree with ZipInfo.is_dir() of the real library."""
     import zipfile
@@ -630,6 +739,12 @@ def _family(req):
 def find(req):
     tried = 0
     fam, hint = _family(req)
+    if fam == "limits":
+        r = native_defaults() or native_limits_lattice()
+        if r is not None:
+            r.update(reproduced=True, found_by="default-configuration boundary vectors / non-default limits on real ZIPs")
+            return r
+        return {"reproduced": False, "note": "defaults equal the documented configuration; configured limits are honoured by both wrappers"}
     if fam == "sequence":
         r = native_sequences() or predicate_sequences()
         if r is not None:
@@ -650,7 +765,8 @@ def find(req):
             return r
         return {"reproduced": False, "note": "every ZIP-container entry point validates before the first member access and "
                                              "answers a bomb member with ExtractionZipBombError"}
-    r = (native_wrappers() or native_sequences() or predicate_sequences()) if fam == "all" else (_dirflag() or predicate_sequences())
+    r = (native_wrappers() or native_limits_lattice() or native_defaults() or native_sequences() or predicate_sequences()) if fam == "all" \
+        else (_dirflag() or native_defaults() or predicate_sequences())
     if r is not None:
         r.update(reproduced=True, found_by="native wrapper cases")
         return r
